@@ -457,8 +457,138 @@ Lemma centred_ok pw ph offX offY (chS : wsurface) :
   0 <= offY -> offY + s_h chS <= ph -> 0 <= (ph - s_h chS - offY) - offY <= 1 ->
   centred pw ph (offX, offY, 0, observe chS) = true.
 Proof.
-  intros. unfold centred. destruct (observe_shape chS) as (-> & -> & _).
-  destruct ((s_w chS <=? pw) && (s_h chS <=? ph)); [lia | reflexivity].
+  intros. unfold centred. destruct (observe_shape chS) as (-> & -> & _). lia.
+Qed.
+
+(* ---- list.Dynamic: every item surface is within the width the list passed to the item *)
+
+Definition item_surf (drawcur : bool) (k : Z * Z * Z * wsurface) : wsurface :=
+  if drawcur && (kid_col k =? 0)
+  then match s_kids (kid_surf k) with [k'] => kid_surf k' | _ => kid_surf k end
+  else kid_surf k.
+
+Lemma item_tree_observe drawcur c r z (ch : wsurface) :
+  o_w (item_tree drawcur (c, r, z, observe ch)) = s_w (item_surf drawcur (c, r, z, ch)).
+Proof.
+  unfold item_tree, item_surf. cbn [kid_col kid_surf].
+  destruct (observe_shape ch) as (Ew & _ & Ek).
+  destruct (drawcur && (c =? 0)); [|exact Ew].
+  rewrite Ek. destruct (s_kids ch) as [|[[[c1 r1] z1] ch1] [|k2 rest]]; cbn [map]; try exact Ew.
+  cbn [kid_otree kid_surf]. apply observe_shape.
+Qed.
+
+Definition dres_within (W : Z) (r : dres) : Prop := match r with DOk c => s_w c <= W | DPanic => True end.
+Definition placed (off W : Z) (k : Z * Z * Z * wsurface) : Prop := kid_col k = off /\ s_w (kid_surf k) <= W.
+
+Lemma list_loop_placed rs W : forall (s s' : wsurface) off ah gap maxh,
+  Forall (dres_within W) rs -> Forall (placed off W) (s_kids s) ->
+  list_loop s rs off ah gap maxh = Some s' -> Forall (placed off W) (s_kids s').
+Proof.
+  induction rs as [|r t IH]; intros s s' off ah gap maxh Hrs Hk; cbn [list_loop].
+  - intros E; injection E as <-. exact Hk.
+  - inversion Hrs as [|? ? Hr Ht]; subst. destruct r as [|chS]; [discriminate|]. cbn [dres_within] in Hr.
+    assert (Hk1 : Forall (placed off W) (s_kids (add_child s off ah chS))).
+    { destruct (add_child_shape s off ah chS) as (_ & _ & _ & ->). apply Forall_app; split; [exact Hk|].
+      constructor; [split; [reflexivity | exact Hr] | constructor]. }
+    destruct (ah + s_h chS + gap >=? maxh).
+    + intros E; injection E as <-. exact Hk1.
+    + intros E. exact (IH _ _ _ _ _ _ Ht Hk1 E).
+Qed.
+
+Lemma placed_item_surf drawcur W k : placed (list_off drawcur) W k -> s_w (item_surf drawcur k) <= W.
+Proof.
+  intros [Hc Hw]. unfold item_surf. rewrite Hc. destruct drawcur; cbn [list_off andb Z.eqb]; exact Hw.
+Qed.
+
+Lemma list_finish_items drawcur (s s' : wsurface) maxw W : wf_tree s -> 0 <= maxw < 65536 ->
+  list_finish drawcur s maxw = Some s' -> Forall (placed (list_off drawcur) W) (s_kids s) ->
+  Forall (fun k => s_w (item_surf drawcur k) <= W) (s_kids s').
+Proof.
+  intros Hs Hw. unfold list_finish. destruct drawcur; cbn [negb].
+  2:{ intros E Hk; injection E as <-. eapply Forall_impl; [|exact Hk]. apply placed_item_surf. }
+  destruct (gutter_keeps (Z.to_nat (s_h s)) s 0 Hs ltac:(lia)) as (s1 & E1 & K1 & _ & _ & Hk1). rewrite E1.
+  rewrite <- Hk1.
+  destruct (s_kids s1) as [|[[[c0 r0] z0] ch] rest] eqn:Ek.
+  - intros E _; injection E as <-. rewrite Ek. constructor.
+  - pose proof (wf_tree_kids s1 K1) as Hkk. rewrite Ek in Hkk. inversion Hkk as [|? ? Hch Hrest]; subst.
+    cbn [kid_surf] in Hch. pose proof (wf_tree_node ch Hch) as (Hcw & Hchh & _).
+    destruct (cursor_col_keeps (Z.to_nat (s_h ch)) (new_surface wblank maxw (s_h ch)) 0) as (cur & Ec & _ & _ & _ & Ck).
+    { apply new_surface_wf_tree; lia. } { lia. }
+    rewrite Ec. intros E Hk; injection E as <-. cbn [s_kids].
+    inversion Hk as [|? ? [_ Hw0] Hr]; subst. cbn [kid_surf] in Hw0. constructor.
+    + unfold item_surf. cbn [kid_col kid_surf andb Z.eqb].
+      destruct (add_child_shape cur 2 0 ch) as (_ & _ & _ & ->). rewrite Ck. cbn [new_surface s_kids app kid_surf].
+      exact Hw0.
+    + eapply Forall_impl; [|exact Hr]. apply (placed_item_surf true).
+Qed.
+
+Lemma items_within (items : list wspec) W :
+  0 <= W < 65536 -> Forall (dres_within W) (map (fun it => draw it W 65535) items).
+Proof.
+  intros HW. apply Forall_map. apply Forall_forall. intros it _.
+  pose proof (draw_contract_all it W 65535 HW ltac:(lia)) as Hit. unfold draw_contract in Hit.
+  destruct (draw it W 65535); cbn [dres_within]; [exact I | lia].
+Qed.
+
+Lemma items_wf (items : list wspec) W :
+  0 <= W < 65536 -> Forall dres_wf (map (fun it => draw it W 65535) items).
+Proof.
+  intros HW. apply Forall_map. apply Forall_forall. intros it _.
+  pose proof (draw_contract_all it W 65535 HW ltac:(lia)) as Hit. unfold draw_contract in Hit.
+  destruct (draw it W 65535); cbn [dres_wf]; tauto.
+Qed.
+
+Lemma list_kids_ok drawcur W (s : wsurface) :
+  Forall (fun k => s_w (item_surf drawcur k) <= W) (s_kids s) ->
+  forallb (fun k => o_w (item_tree drawcur k) <=? W) (o_kids (observe s)) = true.
+Proof.
+  intros H. destruct (observe_shape s) as (_ & _ & ->).
+  apply forallb_forall. intros k Hin. apply in_map_iff in Hin. destruct Hin as ([[[c r] z] ch] & <- & Hin).
+  rewrite Forall_forall in H. specialize (H _ Hin). rewrite item_tree_observe. lia.
+Qed.
+
+(* every widget of the drawn tree is within the maximum it was given, Center/Button centre *)
+Lemma tree_ok_draw : forall ws maxw maxh s, 0 <= maxw < 65536 -> 0 <= maxh < 65536 ->
+  draw ws maxw maxh = DOk s -> tree_ok ws maxw maxh (observe s) = true.
+Proof.
+  induction ws as [r soft lines|ch IH|lines|chars|drawcur gap items];
+    intros maxw maxh s Hw Hh Ed;
+    match type of Ed with draw ?w _ _ = _ => pose proof (draw_contract_all w maxw maxh Hw Hh) as Hc end;
+    unfold draw_contract in Hc; rewrite Ed in Hc; destruct Hc as (Hwf & Hsw & Hsh);
+    cbn [tree_ok]; destruct (observe_shape s) as (Eow & Eoh & Ek); rewrite Eow, Eoh;
+    replace ((s_w s <=? maxw) && (s_h s <=? maxh)) with true by lia; cbn [andb]; try reflexivity.
+  - (* Center *)
+    cbn [draw] in Ed.
+    destruct ((maxh =? 65535) || (maxw =? 65535)) eqn:Eu; [unfold center_draw in Ed; rewrite Eu in Ed; discriminate|].
+    destruct (draw ch maxw maxh) as [|chS] eqn:Edc.
+    + pose proof (center_draw_spec (fun mw mh => cres_of (draw ch mw mh)) maxw maxh ltac:(lia) ltac:(lia)) as H.
+      cbv beta in H. rewrite Edc in H. cbn [cres_of] in H. congruence.
+    + destruct (center_builtin_margins ch maxw maxh chS ltac:(lia) ltac:(lia) Edc)
+        as (s2 & offX & offY & E2 & E3 & E4 & Ek2 & M).
+      cbn [draw] in E2. rewrite E2 in Ed. injection Ed as <-.
+      rewrite Ek, Ek2. cbn [map kid_otree]. rewrite E3, E4.
+      rewrite centred_ok by tauto. cbn [andb]. apply IH; assumption.
+  - (* Button *)
+    cbn [draw] in Ed.
+    destruct ((maxh =? 65535) || (maxw =? 65535)) eqn:Eu; [unfold button_draw in Ed; rewrite Eu in Ed; discriminate|].
+    destruct (button_margins lines maxw maxh ltac:(lia) ltac:(lia))
+      as (s2 & offX & offY & chS & E2 & E3 & E4 & Ek2 & _ & M).
+    rewrite E2 in Ed. injection Ed as <-.
+    rewrite Ek, Ek2. cbn [map]. rewrite E3, E4. apply centred_ok; tauto.
+  - (* list.Dynamic *)
+    cbn [draw] in Ed.
+    destruct ((maxh =? 65535) || (maxw =? 65535)) eqn:Eu; [discriminate|].
+    fold (list_off drawcur) in Ed.
+    set (W := u16 (maxw - list_off drawcur)) in *.
+    assert (HW : 0 <= W < 65536) by apply u16_range.
+    pose proof (new_surface_wf_tree wblank maxw maxh Hw Hh) as Hs0.
+    pose proof (list_loop_spec _ (new_surface wblank maxw maxh) (list_off drawcur) 0 gap maxh Hs0 (items_wf items W HW)) as Hl.
+    destruct (list_loop (new_surface wblank maxw maxh) _ (list_off drawcur) 0 gap maxh) as [s1|] eqn:El; [|discriminate].
+    destruct Hl as (L1 & _ & _).
+    destruct (list_finish drawcur s1 maxw) as [s2|] eqn:Ef; [|discriminate]. injection Ed as <-.
+    apply list_kids_ok.
+    eapply list_finish_items; [exact L1 | exact Hw | exact Ef|].
+    eapply list_loop_placed; [apply (items_within items W HW) | | exact El]. constructor.
 Qed.
 
 (* for every input the model's own observation passes the decidable contract check that the
@@ -470,29 +600,9 @@ Proof.
   pose proof (draw_contract_all ws maxw maxh Hw Hh) as Hc. unfold draw_contract in Hc.
   destruct (draw ws maxw maxh) as [|s] eqn:Ed.
   - cbn. exact Hc.
-  - destruct Hc as (Hwf & Hsw & Hsh).
-    replace (0 =? 1) with false by reflexivity. cbn [andb].
-    destruct (observe_shape s) as (-> & -> & Ek). rewrite (observe_wf s Hwf).
-    replace ((0 =? 0) && (s_w s <=? maxw) && (s_h s <=? maxh) && true) with true by lia.
-    cbn [andb].
-    destruct ws as [r soft lines|ch|lines|chars|drawcur gap items]; cbn [is_centering]; try reflexivity.
-    + (* Center *)
-      cbn [draw] in Ed.
-      destruct ((maxh =? 65535) || (maxw =? 65535)) eqn:Eu; [unfold center_draw in Ed; rewrite Eu in Ed; discriminate|].
-      destruct (draw ch maxw maxh) as [|chS] eqn:Edc.
-      * pose proof (center_draw_spec (fun mw mh => cres_of (draw ch mw mh)) maxw maxh ltac:(lia) ltac:(lia)) as H.
-        cbv beta in H. rewrite Edc in H. cbn [cres_of] in H. congruence.
-      * destruct (center_builtin_margins ch maxw maxh chS ltac:(lia) ltac:(lia) Edc)
-          as (s2 & offX & offY & E2 & E3 & E4 & Ek2 & M).
-        cbn [draw] in E2. rewrite E2 in Ed. injection Ed as <-.
-        rewrite Ek, Ek2. cbn [map]. rewrite E3, E4. apply centred_ok; tauto.
-    + (* Button *)
-      cbn [draw] in Ed.
-      destruct ((maxh =? 65535) || (maxw =? 65535)) eqn:Eu; [unfold button_draw in Ed; rewrite Eu in Ed; discriminate|].
-      destruct (button_margins lines maxw maxh ltac:(lia) ltac:(lia))
-        as (s2 & offX & offY & chS & E2 & E3 & E4 & Ek2 & _ & M).
-      rewrite E2 in Ed. injection Ed as <-.
-      rewrite Ek, Ek2. cbn [map]. rewrite E3, E4. apply centred_ok; tauto.
+  - destruct Hc as (Hwf & _).
+    replace (0 =? 1) with false by reflexivity.
+    rewrite (observe_wf s Hwf), (tree_ok_draw ws maxw maxh s Hw Hh Ed). reflexivity.
 Qed.
 
 (* no panic at all for Text, RichText and TextField, and none for a Center/Button under bounded
